@@ -156,14 +156,15 @@ namespace vh {
          for (int k = 0; k < 26; ++k) consts.push_back(reg(builtin(k)));                 //  1..26
          for (int k = 0; k < 5; ++k) consts.push_back(reg(symconst(k)));                 // 27..31
          consts.push_back(reg(l.nullptr_value().type()));                                // 32
-         consts.push_back(reg(l.default_value().type()));                                // 33
+         // (`auto` has no accessor of its own: it is the type its spelling denotes, and the type `default` must have)
+         consts.push_back(reg(lex.get_as_type(lex.get_identifier(u8"auto"))));           // 33
          consts.push_back(reg(l.cxx_linkage()));                                         // 34
          consts.push_back(reg(l.c_linkage()));                                           // 35
          consts.push_back(reg(l.int_type().transfer()));                                 // 36 natural transfer
          consts.push_back(reg(l.int_type().transfer().convention()));                    // 37 natural convention
          for (int k = 0; k < 26; ++k) consts.push_back(reg(builtin(k).name()));          // 38..63
          for (int k = 0; k < 5; ++k) consts.push_back(reg(symconst(k).name()));          // 64..68
-         consts.push_back(reg(l.default_value().type().name()));                         // 69 "auto"
+         consts.push_back(reg(lex.get_as_type(lex.get_identifier(u8"auto")).name()));    // 69 "auto"
          consts.push_back(reg(lex.get_identifier(u8"this")));                            // 70
          consts.push_back(reg(unit.global_namespace().name()));                          // 71 ""
       }
